@@ -3,6 +3,7 @@ DRIVERS = {
     # name: (extraction file in coq/, driver in ocaml/, extracted module name)
     "drv_set": ("Extract_set.v", "drv_set.ml", "set_model"),
     "drv_addr": ("Extract_addr.v", "drv_addr.ml", "addr_model"),
+    "drv_iauth": ("Extract_iauth.v", "drv_iauth.ml", "iauth_model"),
 }
 
 HOOK_COMMITS = ["9dc863c"]
